@@ -249,8 +249,9 @@ Proof. destruct r; cbn; intro H; try discriminate. eauto. Qed.
 Lemma apply_bin_sound op a b v : apply_bin op a b = CVal v -> py_bin op a b = Ok v.
 Proof.
   unfold apply_bin. intro H.
-  assert (G : (if is_numv a && is_numv b then lift (py_bin op a b) else CFail KValue) = CVal v -> py_bin op a b = Ok v).
-  { destruct (is_numv a && is_numv b); [apply lift_val|discriminate]. }
+  assert (G : (if is_numv a && is_numv b then (if too_large op a b then CFail KValue else lift (py_bin op a b)) else CFail KValue) = CVal v
+              -> py_bin op a b = Ok v).
+  { destruct (is_numv a && is_numv b); [destruct (too_large op a b); [discriminate|apply lift_val]|discriminate]. }
   destruct op; try (apply G; exact H).
   destruct a; try (apply G; exact H).
   destruct b; try (apply G; exact H).
@@ -967,9 +968,11 @@ Qed.
 Lemma apply_bin_kind op x y k a b : apply_bin op x y = CFail k -> src k (EBin op a b) = true.
 Proof.
   intro H.
-  assert (G : (if is_numv x && is_numv y then lift (py_bin op x y) else CFail KValue) = CFail k -> src k (EBin op a b) = true).
+  assert (G : (if is_numv x && is_numv y then (if too_large op x y then CFail KValue else lift (py_bin op x y)) else CFail KValue) = CFail k
+              -> src k (EBin op a b) = true).
   { destruct (is_numv x) eqn:Nx; [|cbn; intro E; inversion E; reflexivity].
     destruct (is_numv y) eqn:Ny; [|cbn; intro E; inversion E; reflexivity]. cbn [andb].
+    destruct (too_large op x y); [intro E; inversion E; reflexivity|].
     destruct (py_bin op x y) as [v|e] eqn:E; [discriminate|].
     pose proof (py_bin_numeric_err _ _ _ _ Nx Ny E) as P.
     destruct e; cbn; intro F; inversion F; subst; cbn; try reflexivity; destruct op; cbn in P |- *; congruence. }
@@ -1149,23 +1152,3 @@ Example error_kinds_nonvacuous :
   glyph_bitmap [] (EBin Div (EInt 1) (EInt 0)) = Raises KValue.
 Proof. vm_compute. auto 6. Qed.
 
-(* ------------------------------------------------------------------ *)
-(* C11: the work of the evaluator is not bounded by a polynomial in the size of its input *)
-Lemma in_bin_pow : in_bin Pow = true.
-Proof. reflexivity. Qed.
-
-Theorem blowup : forall n, 0 <= n ->
-  exists z, eval_const [] (tower n) = CVal (VInt z) /\ bits (VInt z) = 2 ^ n + 1.
-Proof.
-  intros n Hn. exists (2 ^ (2 ^ n)). split.
-  - unfold tower. rewrite !ec_bin, in_bin_pow.
-    change (eval_const [] (EInt 2)) with (@CVal pval (VInt 2)).
-    change (eval_const [] (EInt n)) with (@CVal pval (VInt n)).
-    cbn [bindC].
-    assert (E : forall a b, 0 <= b -> apply_bin Pow (VInt a) (VInt b) = CVal (VInt (a ^ b))).
-    { intros a b Hb. unfold apply_bin, py_bin, py_bin_num, num_bin, int_pow. cbn [is_numv andb as_num].
-      apply Z.leb_le in Hb. rewrite Hb. reflexivity. }
-    rewrite (E 2 n Hn). cbn [bindC]. apply E. apply Z.pow_nonneg. lia.
-  - unfold bits. rewrite Z.abs_eq by (apply Z.pow_nonneg; lia).
-    rewrite Z.log2_pow2 by (apply Z.pow_nonneg; lia). reflexivity.
-Qed.
